@@ -41,7 +41,8 @@ VOCAB = [
 
 LITS = ["'a\x0cb'", "'a ! b'", "\"x & y\"", "'it''s'", "\"say \"\"hi\"\"\"", "'a // b'", "'!'", "'&'", "\"'\"", "'\"'", "'plain'", "\"#if 0\"", "'! &'",
         "'a&b'", "\"!$omp\"", "'stop &  ! now'", "\"a & ! b\"", "'x &'"]
-COMMENTS = ["! page\x0cbreak", "! c", "! don't", "! \"x", "! a & b", "!! double", "!c$", "! #ifdef A", "!$omp parallel", "!$acc kernels", "!dir$ ivdep", "!$ y = 1"]
+COMMENTS = ["!DIR$ IVDEP", "!DEC$ ATTRIBUTES FORCEINLINE :: f", "!GCC$ unroll 4", "!Dir$ nofusion", "!$& + 2", "!$OMP PARALLEL DO", "!$acc& copy(x)",
+            "!$omp& private(y)", "! page\x0cbreak", "! c", "! don't", "! \"x", "! a & b", "!! double", "!c$", "! #ifdef A", "!$omp parallel", "!$acc kernels", "!dir$ ivdep", "!$ y = 1"]
 
 
 # headers included (two levels deep) from the Fortran file: free-form Fortran text, whatever their extension
@@ -69,7 +70,7 @@ def required_cells(tier):
             "define-sets>=4", "class:E", "class:R", "include", "all-code-lines-compared", "directive-inside-continuation",
             "comment-in-literal-continuation", "blank-in-literal-continuation", "nested-include",
             "hash-first-in-literal-continuation", "comment-after-conditional-directive", "selection-inside-included-header",
-            "include-of-non-source-extension", "form-feed-in-comment-or-literal"]
+            "include-of-non-source-extension", "form-feed-in-comment-or-literal", "sentinel:upper-or-mixed-case-prefix", "sentinel:followed-by-ampersand"]
 
 
 def gfortran(args, cwd):
@@ -195,6 +196,10 @@ def check_text(ctx, text, work, cls, defsets):
         cells.add("directive-inside-continuation")
     if "\x0c" in text:
         cells.add("form-feed-in-comment-or-literal")
+    if re.search(r"^\s*![A-Za-z]*[A-Z][A-Za-z]*\$", text, re.M):
+        cells.add("sentinel:upper-or-mixed-case-prefix")
+    if re.search(r"^\s*![A-Za-z]*\$&", text, re.M):
+        cells.add("sentinel:followed-by-ampersand")
     if re.search(r"^[ \t]*&[ \t]*#", text, re.M):
         cells.add("hash-first-in-literal-continuation")
     if re.search(r"^#(else|endif) !", text, re.M):
